@@ -683,6 +683,10 @@ Proof. intros. unfold new_rel_step. pqauto. Qed.
 Lemma Pq_new_rel_fold : forall o e ics acc, Pq acc -> Pq (fold_left (new_rel_step sch o e) ics acc).
 Proof. intros. apply Pq_fold_left; auto. intros. apply Pq_new_rel_step; auto. Qed.
 
+Lemma Pq_flushobj_op : forall (s : sess) (h : nat), Pq s -> Pqp (flushobj_op sch s h).
+Proof. intros. unfold flushobj_op. pqauto. Qed.
+Hint Resolve Pq_flushobj_op : pq.
+
 Lemma Pq_keep_declined : forall s0 s1, Pq s1 -> Pq (keep_declined s0 s1).
 Proof. intros. unfold keep_declined. pqauto. Qed.
 
